@@ -1722,6 +1722,10 @@ class Interp:
                     s.keys[key_token(x)] = x
             return s
 
+        @reg("frozenset")
+        def _frozenset(I, a, k):
+            return b["set"].fn(I, a, k)
+
         @reg("dict")
         def _dict(I, a, k):
             d = I.new_dict()
